@@ -212,7 +212,7 @@ def run_kani(repo):
 
 
 # ---- bounded Kani twin of apply/undo (thorough tier of C03 / C04) ---------------------------
-MOVE_HARNESSES = ['std_apply_undo_board_a', 'promo_apply_undo_board_p', 'ep_apply_undo', 'castle_apply_undo_board_c']
+MOVE_HARNESSES = ['std_apply_undo_board_a', 'promo_apply_undo_board_p', 'ep_apply_undo', 'castle_apply_undo_board_c', 'two_ply_apply_undo_board_a']
 FALLBACK_PROPS = ('C03', 'C04', 'C12', 'C16')
 
 
@@ -282,7 +282,7 @@ def run_kani_moves(repo, harnesses=None, module='moves'):
                 pass
         return {'cmd': 'CARGO_NET_OFFLINE=true ' + ' '.join(cmd), 'result': res, 'failed_checks': failed[:8], 'failed_harnesses': failed_h,
                 'playback': pb[:4], 'wall_s': round(time.time() - t0, 1), 'tail': out[-1500:],
-                'bound': 'fixed boards of kani/moves.rs (board_a: standard moves, board_p: promotions, board_e: en passant, board_c: castling); every (from,to[,piece]) satisfying the shape precondition; public API only'}
+                'bound': 'fixed boards of kani/moves.rs (board_a: standard moves, board_p: promotions, board_e: en passant, board_c: castling; two plies on board_a: six fixed first moves x symbolic reply); every (from,to[,piece]) satisfying the shape precondition; public API only'}
     finally:
         shutil.rmtree(tmp, ignore_errors=True)
 
